@@ -56,7 +56,7 @@ def action_groups(ctx, f):
             g = cu.switch_groups(f, sw)
             if best is None or len(g) > len(best):
                 best = g
-    ctx.require(best is not None and len(best) > 100,
+    ctx.require(best is not None and (len(best) > 100 or ctx.fixture),
                 'grammar action switch (yyn) not found in yara_yyparse')
     return best
 
@@ -71,7 +71,7 @@ def vm_groups(ctx):
             g = cu.switch_groups(f, sw)
             if best is None or len(g) > len(best):
                 best = g
-    ctx.require(best is not None and len(best) > 60,
+    ctx.require(best is not None and (len(best) > 60 or ctx.fixture),
                 'VM dispatch switch (opcode) not found in yr_execute_code')
     by_val = {}
     for labels, stmts in best:
@@ -322,11 +322,14 @@ def r12_3(ctx):
     prog = ctx.prog
     n_fn = 0
     found = 0
-    for tu_name in COMPILER_LAYER:
-        tu = prog.tu(tu_name)
-        if tu is None:
-            continue
+    layer = [prog.tu(t) for t in COMPILER_LAYER if prog.tu(t) is not None]
+    if ctx.fixture:
+        layer = [t for t in prog.tus.values()]
+    for tu in layer:
+        tu_name = tu.name
         for f in tu.fn_list:
+            if ctx.fixture and f.name != 'yara_yyparse':
+                continue
             n_fn += 1
             for n in f.all_nodes():
                 if n['k'] != 'member' or n['fld'] != 'value':
@@ -345,10 +348,8 @@ def r12_3(ctx):
                     'so a compile-time copy freezes them' % f.show(p if p is not None else n))
     # discharged obligations: every compiler-layer function that handles
     # YR_OBJECT pointers without touching values
-    for tu_name in COMPILER_LAYER:
-        tu = prog.tu(tu_name)
-        if tu is None:
-            continue
+    for tu in layer:
+        tu_name = tu.name
         for f in tu.fn_list:
             uses = False
             bad = False
@@ -362,7 +363,7 @@ def r12_3(ctx):
                     tu_name.split('/')[-1].replace('.c', ''), f.name), True,
                     '%s:%s' % (f.file, f.line),
                     'handles YR_OBJECT without reading run-time values')
-    ctx.require(n_fn > 150, 'compiler layer: only %d functions seen' % n_fn)
+    ctx.require(n_fn > 150 or ctx.fixture, 'compiler layer: only %d functions seen' % n_fn)
 
 
 def r12_6(ctx):
@@ -399,6 +400,20 @@ def r12_6(ctx):
                 g.show(arg)[:40], n.get('l')), not bad, g.loc(n),
                 'constant pushed is not an object value' if not bad else
                 'an object value is emitted as a constant')
+
+
+def _fx(fn):
+    return {'src': 'C12/fold.c', 'run': fn}
+
+
+FIXTURES = {
+    'R12.1': dict(_fx(r12_1_and_2), expect='OP_BITWISE_XOR:fold-vs-vm',
+                  expect_ok='OP_BITWISE_OR:fold-vs-vm'),
+    'R12.2': dict(_fx(r12_1_and_2), expect='OP_INT_DIV:guard:R:eq:-1',
+                  expect_ok='OP_INT_DIV:guard:R:eq:0'),
+    'R12.3': dict(_fx(r12_3), expect='yara_yyparse:object-value.i'),
+    'R12.6': dict(_fx(r12_6), expect='push_const'),
+}
 
 
 def run(ctx):
